@@ -189,11 +189,54 @@ def s18_grid(ctx):
     return res
 
 
-STREAMS = [s18_grid]
+def s18_generated(ctx):
+    """translator validation: the REGENERATED loops of create_grid (compiled into gen_c18) vs the real function on exactly representable inputs"""
+    import_fractopo()
+    import geopandas as gpd
+    from shapely.geometry import LineString
+
+    from fractopo.analysis.contour_grid import create_grid
+
+    res = StreamResult("S18-generated", rule="regenerated create_grid loops (Lean, compiled) vs the real create_grid on dyadic bounds and widths (float arithmetic exact, "
+                       "quotients not within 1e-9 of an integer): cell count, order and bounds equal; non-trivial = more than one row and column")
+    if ctx.gen is None:
+        res.note = "gen_c18 not built (a generated module is broken): skipped"
+        res.skipped["generated_driver_not_built"] = 1
+        return res
+    rng = rng_for(ctx.seed, "S18g")
+    cases, reqs = [], []
+    for _ in range(budget(ctx.tier, 120, 1500)):
+        x0, y0 = rng.randint(-64, 64) / 4, rng.randint(-64, 64) / 4
+        ex, ey = rng.randint(1, 80) / 4, rng.randint(1, 80) / 4
+        w = rng.choice([0.25, 0.5, 0.75, 1.0, 1.5, 2.25, 3.0, 5.5])
+        if abs(ex / w - round(ex / w)) < 1e-9 and rng.random() < 0.5:
+            ex += 0.125
+        cases.append((x0, y0, x0 + ex, y0 + ey, w))
+        reqs.append(f"grid xmin={rat(x0)} ymin={rat(y0)} xmax={rat(x0 + ex)} ymax={rat(y0 + ey)} w={rat(w)}")
+    resps = ctx.gen.parallel(reqs)
+    for (x0, y0, x1, y1, w), req, resp in zip(cases, reqs, resps):
+        res.evaluations += 1
+        g = create_grid(w, gpd.GeoSeries([LineString([(x0, y0), (x1, y1)])]))
+        want = [tuple(F(v) for v in geom.bounds) for geom in g.geometry.values]
+        r = parse_resp(resp)
+        got = [tuple(F(v) for v in c.split(",")) for c in r["cells"].split(";")] if r.get("cells") else []
+        cols, rows = math.ceil((x1 - x0) / w), math.ceil((y1 - y0) / w)
+        res.nontrivial += int(cols > 1 and rows > 1)
+        if got != want:
+            res.disagreements.append(Disagreement("S18-generated", {"stream": "S18-generated", "request": req}, [str(x) for x in got[:4]], [str(x) for x in want[:4]], None,
+                                                  "regenerated create_grid loops (Lean) and the Python function disagree"))
+    res.samples = [{"request": reqs[0], "response": resps[0][:160]}]
+    return res
+
+
+STREAMS = [s18_grid, s18_generated]
 
 
 def replay(ctx, stream, case):
     import_fractopo()
+    if stream == "S18-generated":
+        r = s18_generated(ctx)
+        return r.disagreements[0] if r.disagreements else None
     from shapely.geometry import Polygon
 
     from harness.mapgen import Arrangement, arr_request
